@@ -6,7 +6,7 @@ import importlib.util, json, os, shutil, sys
 ROOT = os.path.dirname(os.path.dirname(os.path.abspath(__file__)))
 SRC = sys.argv[1] if len(sys.argv) > 1 else "/tmp/seed_out5"
 src = open(os.path.join(ROOT, "tools", "mkmeta.py")).read()
-ns = {}
+ns = {"__file__": os.path.join(ROOT, "tools", "mkmeta.py")}
 exec(src.split("for d in sorted(os.listdir")[0], ns)
 DETECT = ns["DETECT"]
 rows = []
